@@ -597,7 +597,10 @@ class Point:
                 mag = ey * (10.0 ** rng.uniform(-8, -4) if cls == "tiny" else 10.0 ** rng.uniform(-1.5, 2.0))
                 dF = make_def(geo, rng, rot=fin and cls != "tiny")(min(mag, 0.4))
         else:
-            mag = 10.0 ** (rng.uniform(-9, -6) if cls == "tiny" else rng.uniform(-5, -0.3))
+            # up to stretches of about 3: the relaxation clauses must hold for large deformations too
+            mag = 10.0 ** (rng.uniform(-9, -6) if cls == "tiny" else rng.uniform(-5, 0.3))
+            if cls == "large":                    # stretches 1.6 .. 3 along a fresh (non-coaxial) direction
+                mag = rng.uniform(0.6, 2.0)
             if self._deform_only:                 # Deform (no time step) serves the limit / rotation clauses
                 mag = 10.0 ** rng.uniform(-3, -0.3)
             if cls == "reverse" and self.dF_last is not None:
@@ -606,7 +609,7 @@ class Point:
                 dF = make_def(geo, rng, rot=cls != "tiny")(mag)
         Fn = dF @ self.F
         small = self.m["model"] == "j2_small"
-        too_big = (np_norm(Fn - I3) > 0.3) if small else (np_norm(np_logstrain(Fn)) > 1.2 or
+        too_big = (np_norm(Fn - I3) > 0.3) if small else (np_norm(np_logstrain(Fn)) > (2.5 if kind == "viscous" else 1.2) or
                                                           onp.linalg.det(Fn) <= 0)
         if too_big:                               # stay in the admissible range: restart the path near I
             dF = make_def(geo, rng, rot=fin)(0.05)
